@@ -314,6 +314,59 @@ def main(ctx, replay):
         ctx.notes.append("proof obligations broken: %s" % proof_broken)
         cov["discharged"] = 0
 
+    # ONE long-lived server, a sequence of mutating calls, an audit sink that fails for a moment and works again: every call whose record
+    # could be written is audited, in order
+    MUTATING = ["config_apply", "management_endpoint_upsert", "management_endpoint_delete", "dlq_requeue", "dlq_delete", "messages_cancel", "messages_requeue",
+                "messages_resume", "messages_publish", "messages_cancel_by_filter", "messages_requeue_by_filter", "messages_resume_by_filter",
+                "instance_start", "instance_stop", "instance_reload"]
+    life_cases = []
+    for k in range(10 if ctx.tier == "quick" else 60):
+        n = rng.randint(3, 8)
+        calls = []
+        for _ in range(n):
+            t = rng.choice(MUTATING)
+            args = rng.choice([{}, {"actor": "ops"}, {"actor": "somebody-else"}, {"ids": ["seed-1"], "actor": "ops"}, {"reason": "r", "actor": "ops"}])
+            calls.append({"name": t, "args": args})
+        setting = rng.choice([{"role": "admin", "mut": True, "rt": True, "principal": "ops"}, {"role": "operate", "mut": True, "rt": False, "principal": "ops"},
+                              {"role": "read", "mut": False, "rt": False, "principal": "ops"}, {"role": "admin", "mut": True, "rt": True, "principal": ""}])
+        fw, sw = [], []
+        if k % 3 == 0:
+            fw = [rng.randrange(n)]
+        elif k % 3 == 1:
+            sw = [rng.randrange(n)]
+        life_cases.append({"setting": setting, "calls": calls, "fail_writes": fw, "short_writes": sw})
+    rc_l, out_l, err_l = C.harness_run(info["hbin"], ["mcp-audit-life"], {"dir": os.path.join(ctx.scratch, "mcplife"), "cases": life_cases}, timeout=600)
+    life_stats = {"cases": len(life_cases), "calls": 0, "records": 0, "sink_failures": 0}
+    if rc_l != 0:
+        raise RuntimeError("mcp-audit-life failed: " + err_l[-1500:])
+    for c, o in zip(life_cases, json.loads(out_l)["cases"]):
+        tools = [x["name"] for x in c["calls"]]
+        life_stats["calls"] += len(tools)
+        recs = [r for r in (o.get("records") or []) if r["complete"]]
+        life_stats["records"] += len(recs)
+        bad_w = sorted(c["fail_writes"] + c["short_writes"])
+        life_stats["sink_failures"] += len(bad_w)
+        problems = []
+        if o.get("err") or o.get("responses") != len(tools):
+            problems.append("%s responses for %d calls (%s)" % (o.get("responses"), len(tools), o.get("err")))
+        got = [r["tool"] for r in recs]
+        if not bad_w:
+            if got != tools:
+                problems.append("audit records %s for the calls %s" % (got, tools))
+        else:
+            # the record(s) whose write failed may be missing; every other call has its record, in order.  One record is one Write for
+            # every encoder observed so far; stated loosely: at most len(bad_w) calls lack a record, and all calls after the last
+            # failed write are audited
+            missing = len(tools) - len(got)
+            it = iter(tools)
+            is_subseq = all(any(t == g for t in it) for g in got)
+            if missing > len(bad_w) or missing < 0 or not is_subseq:
+                problems.append("after %d failed write(s) of the audit sink (write index %s) %d of %d mutating calls left no complete audit record: records %s for calls %s" %
+                                (len(bad_w), bad_w, missing, len(tools), got, tools))
+        if problems:
+            C.report(ctx, "audit-life:%s" % ("sink-recovers" if bad_w else "healthy-sink"), "one MCP server, %d mutating calls: %s" % (len(tools), "; ".join(problems)),
+                     {"kind": "request", "case": c, "observed": o})
+    cov["mcp_audit_life"] = life_stats
     # every call of a queue-mutation tool appends exactly one audit record, whatever it matched (real MCP server on a real database)
     from lib import c14admin
     audit_stats = c14admin.audit_probe(ctx, info, rng)
